@@ -5,7 +5,7 @@
 //! the same errno - hence the same `ErrorKind` and message - Linux would give) unless the fault
 //! plan holds an entry for this call index. With `Mode::Real` the call goes to `std::fs` below a
 //! scratch root and is logged the same way, which is how the model is validated.
-use crate::os::{self, err_repr, errno_error, norm, nul_error, CallResult, FaultSpec, Mode, Node, SimOs};
+use crate::os::{self, err_repr, errno_error, missing_errno, norm, nul_error, CallResult, FaultSpec, Mode, Node, SimOs};
 use std::io;
 use std::path::{Path, PathBuf};
 
@@ -106,7 +106,7 @@ fn sim_read(os: &mut SimOs, p: &str, fault: Option<FaultSpec>) -> io::Result<Str
         return e(libc::EISDIR);
     }
     match os.nodes.get(&p) {
-        None => e(libc::ENOENT),
+        None => e(missing_errno(&p)),
         Some(Node::Dir) => e(libc::EISDIR),
         Some(Node::File(b)) => String::from_utf8(b.clone()).map_err(|_| {
             io::Error::new(
@@ -138,6 +138,9 @@ fn sim_write(os: &mut SimOs, p: &str, bytes: &[u8], fault: Option<FaultSpec>) ->
         os.walk_parent(&p).or_else(e)?;
         if os.is_dir(&p) {
             return e(libc::EISDIR);
+        }
+        if !os.exists(&p) && missing_errno(&p) != libc::ENOENT {
+            return e(missing_errno(&p));
         }
         Ok(p)
     })();
@@ -179,7 +182,7 @@ fn sim_copy(os: &mut SimOs, from: &str, to: &str, fault: Option<FaultSpec>) -> (
         os.walk_parent(&from).or_else(e)?;
         let bytes = match os.nodes.get(&from) {
             None if from.is_empty() => None,
-            None => return e(libc::ENOENT),
+            None => return e(missing_errno(&from)),
             Some(Node::Dir) => None,
             Some(Node::File(b)) => Some(b.clone()),
         };
@@ -193,6 +196,9 @@ fn sim_copy(os: &mut SimOs, from: &str, to: &str, fault: Option<FaultSpec>) -> (
         os.walk_parent(&to).or_else(e)?;
         if os.is_dir(&to) {
             return e(libc::EISDIR);
+        }
+        if !os.exists(&to) && missing_errno(&to) != libc::ENOENT {
+            return e(missing_errno(&to));
         }
         Ok((from, to, bytes))
     })();
@@ -236,7 +242,7 @@ fn sim_remove_file(os: &mut SimOs, p: &str, fault: Option<FaultSpec>) -> io::Res
         return e(libc::EISDIR);
     }
     match os.nodes.remove(&p) {
-        None => e(libc::ENOENT),
+        None => e(missing_errno(&p)),
         Some(_) => Ok(()),
     }
 }
@@ -259,7 +265,7 @@ fn sim_remove_dir(os: &mut SimOs, p: &str, fault: Option<FaultSpec>) -> io::Resu
         return e(libc::EBUSY);
     }
     match os.nodes.get(&p) {
-        None => e(libc::ENOENT),
+        None => e(missing_errno(&p)),
         Some(Node::File(_)) => e(libc::ENOTDIR),
         Some(Node::Dir) => {
             if !os.children(&p).is_empty() {
@@ -292,7 +298,7 @@ fn sim_remove_dir_all(os: &mut SimOs, p: &str, fault: Option<FaultSpec>) -> (io:
             return e(libc::EBUSY);
         }
         match os.nodes.get(&p) {
-            None => e(libc::ENOENT),
+            None => e(missing_errno(&p)),
             Some(Node::File(_)) => e(libc::ENOTDIR),
             Some(Node::Dir) => Ok(p),
         }
@@ -341,6 +347,9 @@ fn sim_create_dir(os: &mut SimOs, p: &str, fault: Option<FaultSpec>) -> io::Resu
     os.walk_parent(&p).or_else(e)?;
     if os.exists(&p) {
         return e(libc::EEXIST);
+    }
+    if missing_errno(&p) != libc::ENOENT {
+        return e(missing_errno(&p));
     }
     os.nodes.insert(p, Node::Dir);
     Ok(())
@@ -396,6 +405,12 @@ fn sim_create_dir_all(os: &mut SimOs, p: &str, fault: Option<FaultSpec>) -> (io:
                 };
             }
             None => {
+                if missing_errno(&cur) != libc::ENOENT {
+                    return match fault {
+                        Some(f) => (e(f.errno), created > 0),
+                        None => (e(missing_errno(&cur)), false),
+                    };
+                }
                 if let Some(f) = fault {
                     if created == 1 {
                         // torn: exactly one missing ancestor was created before the failure
@@ -428,15 +443,20 @@ fn sim_rename(os: &mut SimOs, from: &str, to: &str, fault: Option<FaultSpec>) ->
     if let Some(f) = fault {
         return e(f.errno);
     }
+    // both paths become C strings before the system call
+    if from.as_bytes().contains(&0) || to.as_bytes().contains(&0) {
+        return Err(nul_error());
+    }
+    // the kernel resolves the parent of `from`, then the parent of `to`, then the entries
     let from = npath(from)?;
-    let to = npath(to)?;
     os.walk_parent(&from).or_else(e)?;
+    let to = npath(to)?;
     os.walk_parent(&to).or_else(e)?;
     if from.is_empty() || to.is_empty() {
         return e(libc::EBUSY);
     }
     let Some(src) = os.nodes.get(&from).cloned() else {
-        return e(libc::ENOENT);
+        return e(missing_errno(&from));
     };
     if from == to {
         return Ok(());
@@ -445,8 +465,16 @@ fn sim_rename(os: &mut SimOs, from: &str, to: &str, fault: Option<FaultSpec>) ->
     if src_is_dir && to.starts_with(&format!("{from}/")) {
         return e(libc::EINVAL);
     }
+    if from.starts_with(&format!("{to}/")) {
+        // the target is an ancestor of the source: it cannot be empty
+        return e(libc::ENOTEMPTY);
+    }
     match os.nodes.get(&to) {
-        None => {}
+        None => {
+            if missing_errno(&to) != libc::ENOENT {
+                return e(missing_errno(&to));
+            }
+        }
         Some(Node::File(_)) => {
             if src_is_dir {
                 return e(libc::ENOTDIR);
@@ -471,4 +499,22 @@ fn sim_rename(os: &mut SimOs, from: &str, to: &str, fault: Option<FaultSpec>) ->
         os.nodes.insert(format!("{to}{suffix}"), node);
     }
     Ok(())
+}
+
+/// The documented behaviour of one std::fs call applied to a model state, without faults and
+/// without logging (the harness uses it to predict result and post-state of a library call).
+pub fn model_apply(os: &mut SimOs, op: &str, args: &[String]) -> io::Result<String> {
+    let a = |i: usize| args.get(i).map(|s| s.as_str()).unwrap_or("");
+    match op {
+        "read_to_string" => sim_read(os, a(0), None),
+        "write" => sim_write(os, a(0), a(1).as_bytes(), None).0.map(|_| "()".to_string()),
+        "copy" => sim_copy(os, a(0), a(1), None).0.map(|n| n.to_string()),
+        "remove_file" => sim_remove_file(os, a(0), None).map(|_| "()".to_string()),
+        "remove_dir" => sim_remove_dir(os, a(0), None).map(|_| "()".to_string()),
+        "remove_dir_all" => sim_remove_dir_all(os, a(0), None).0.map(|_| "()".to_string()),
+        "create_dir" => sim_create_dir(os, a(0), None).map(|_| "()".to_string()),
+        "create_dir_all" => sim_create_dir_all(os, a(0), None).0.map(|_| "()".to_string()),
+        "rename" => sim_rename(os, a(0), a(1), None).map(|_| "()".to_string()),
+        other => Err(io::Error::other(format!("model_apply: unknown op {other}"))),
+    }
 }
